@@ -335,6 +335,97 @@ class Grammar:
     def types(self) -> frozenset:
         return frozenset(self.class_type.values())
 
+    # ---- positional relation: which child types can stand last / first ---------------------------------------------------
+    UNKNOWN = "?"
+
+    def _edge(self, e: ast.AST, last: bool, seen: set[str], owner: str, skip: frozenset = frozenset()) -> tuple[set[str], bool]:
+        """(types that the last / first code child produced by `e` can have, can `e` produce nothing).  UNKNOWN in the set
+        means the expression uses a construct this model does not follow (`.copy(...)`, Anything ...).  Types in `skip` are looked
+        through (the caller filters them out before it picks)."""
+        ts, nul = self._edge0(e, last, seen, owner, skip)
+        if ts & skip:
+            return ts - skip, True
+        return ts, nul
+
+    def _edge0(self, e: ast.AST, last: bool, seen: set[str], owner: str, skip: frozenset) -> tuple[set[str], bool]:
+        if isinstance(e, ast.Constant) and isinstance(e.value, str):
+            return {"keyword"}, False
+        if isinstance(e, ast.Name):
+            if e.id in ("Indent", "Dedent", "ImplicitIndent"):
+                return set(), True
+            loc_ = self.class_locals.get(owner, {})
+            if e.id in loc_ and ("L:" + owner + "." + e.id) not in seen:
+                return self._edge(loc_[e.id], last, seen | {"L:" + owner + "." + e.id}, owner, skip)
+            return {self.UNKNOWN}, False
+        if isinstance(e, ast.Starred):
+            return {self.UNKNOWN}, False
+        if not isinstance(e, ast.Call):
+            return {self.UNKNOWN}, False
+        fn = e.func.id if isinstance(e.func, ast.Name) else e.func.attr if isinstance(e.func, ast.Attribute) else ""
+        optional = any(k.arg == "optional" and isinstance(k.value, ast.Constant) and k.value.value is True for k in e.keywords)
+        if fn == "Ref" and e.args and isinstance(e.args[0], ast.Constant):
+            name = e.args[0].value
+            if isinstance(e.func, ast.Attribute) and e.func.attr == "keyword":
+                return {"keyword"}, optional
+            if name in self.class_type:
+                return {self.class_type[name]}, optional
+            if name in seen:
+                return set(), optional
+            g = self.class_grammar.get(name)
+            if g is None:
+                return ({"keyword"}, optional) if name.endswith("KeywordSegment") else ({self.UNKNOWN}, optional)
+            ts, nul = self._edge(g, last, seen | {name}, name, skip)
+            return ts, nul or optional
+        if isinstance(e.func, ast.Attribute) and e.func.attr == "keyword":
+            return {"keyword"}, optional
+        if fn in ("Conditional", "Indent", "Dedent"):
+            return set(), True
+        if fn == "SegmentGenerator" and e.args and isinstance(e.args[0], ast.Lambda):
+            return self._edge(e.args[0].body, last, seen, owner, skip)
+        if fn == "Bracketed":
+            return {"bracketed"}, optional
+        if fn == "OptionallyBracketed":
+            ts, nul = self._edge(ast.Call(func=ast.Name(id="Sequence"), args=list(e.args), keywords=[]), last, seen, owner, skip)
+            return ts | {"bracketed"}, nul or optional
+        if fn == "Sequence":
+            out: set[str] = set()
+            for a in (reversed(e.args) if last else e.args):
+                ts, nul = self._edge(a, last, seen, owner, skip)
+                out |= ts
+                if not nul:
+                    return out, optional
+            return out, True
+        if fn in ("OneOf", "AnyNumberOf", "AnySetOf", "Delimited"):
+            out = set()
+            nullable = optional
+            for a in e.args:
+                ts, nul = self._edge(a, last, seen, owner, skip)
+                out |= ts
+                nullable = nullable or nul
+            if fn in ("AnyNumberOf", "AnySetOf"):
+                mt = next((k.value.value for k in e.keywords if k.arg == "min_times" and isinstance(k.value, ast.Constant)), 0)
+                nullable = nullable or mt == 0
+            if fn == "Delimited" and last and any(k.arg == "allow_trailing" and isinstance(k.value, ast.Constant) and k.value.value for k in e.keywords):
+                out.add("symbol")
+            return out, nullable
+        if fn in ("StringParser", "TypedParser", "RegexParser", "MultiStringParser"):
+            out = set()
+            self._refs(e, set(), out, set())
+            return out or {self.UNKNOWN}, False
+        return {self.UNKNOWN}, optional
+
+    def edge_types(self, typ: str, last: bool = True, skip: frozenset = frozenset()) -> frozenset:
+        """Types the last (first) non-meta child of a `typ` node can have, over every class of that type in this dialect."""
+        out: set[str] = set()
+        for cname in self.type_classes.get(typ, []):
+            g = self.class_grammar.get(cname)
+            if g is None:
+                out.add(self.UNKNOWN)
+                continue
+            ts, _ = self._edge(g, last, {cname}, cname, frozenset(skip))
+            out |= ts
+        return frozenset(out)
+
 
 @lru_cache(maxsize=None)
 def grammar(dialect: str = "ansi") -> Grammar:
